@@ -279,6 +279,12 @@ class Session:
             kw[k] = v
         root = os.path.join(self.scratch, cfg["tree"], cfg["root"])
         module = os.path.join(self.scratch, cfg["tree"], cfg["module"])
+        if cfg.get("mk_sibling") and not os.path.isdir(module):
+            # a directory next to the root package (outside every root of the world)
+            os.makedirs(os.path.join(module, "core"), exist_ok=True)
+            for rel, text in (("__init__.py", ""), ("core/__init__.py", ""), ("core/a.py", "import os\n")):
+                with open(os.path.join(module, rel), "w") as f:
+                    f.write(text)
         order = op.get("order")
         table = {}
         if order:
